@@ -21,6 +21,13 @@
 //     free row segment, a entirely left of b, have key(a) > key(b), or key(a) == key(b) and
 //     index(a) > index(b) (index = position among the movable cells, what the sort compares).
 // A moved cell in a run where neither applies is a VIOLATION.
+//
+// One case in three feeds the legal placement to an object with a PAST (lg::Past, as h_C01 does): the child starts from
+// the same circuit with a fixed obstruction elsewhere / turned / resized, other flags or other rows, lets it compute its
+// rows (and, at times, legalize), brings it to the public state of L through the needed setters only (setCellX alone,
+// setCellY alone, setSolution, setCellOrientation, setupRows, ...) and only then makes the measured call.  Family: state
+// remembered inside the Circuit (a memoised computeRows()) that some setter forgets to drop -- the placement is legal for
+// the circuit as it is NOW, so no cell may move whatever the object saw before.  The failure input carries the past.
 #include <map>
 
 #include "legalize_common.hpp"
@@ -208,17 +215,21 @@ struct Runner {
   }
 
   // L must be a legal single-row placement
-  void run(const std::string &id, const Circuit &L, const lg::LParams &lp, const std::string &stream) {
-    std::string text = lg::caseText(L, lp);
+  void run(const std::string &id, const Circuit &L, const lg::LParams &lp, const std::string &stream, const lg::Past *past = nullptr) {
+    std::string caseTxt = lg::caseText(L, lp);
+    // what a failure records (and --replay reads back): the case, and the object's past when there is one
+    std::string text = caseTxt + (past ? lg::pastText(*past, lp) : std::string());
     lg::Facts f = lg::facts(L);
     bool unit = lp.ow >= 0.0 && lp.ow <= 1.0;
     Kf2 k2 = kf2Applies(L, lp);
     // both classifiers are evaluated on the input, before the code runs
     std::string kf = !unit ? "KF-C11-1" : (k2.segment ? "KF-C11-2" : "");
     out.evaluations++;
-    out.ops << "case " << id << "\n" << text << "kf2\norder\nlegalize\nagain\n";
+    out.ops << "case " << id << "\n" << caseTxt << "kf2\norder\nlegalize\nagain\n";
     out.impl << "case " << id << "\nkf2 " << (k2.row ? 1 : 0) << " " << (k2.segment ? 1 : 0) << "\n";
-    lg::RunResult r1 = lg::runLegalize(L, lp, true);
+    lg::RunResult r1 = lg::runLegalize(L, lp, true, past);
+    if (past) lg::countPast(out, *past, r1);
+    if (r1.diag.find("history-restore-mismatch") != std::string::npos) out.fail(id, "harness: the setters did not bring the reused object to the public state of the case", text);
     if (r1.status != "ok" || r1.answer.empty()) {
       out.impl << r1.order << "\ncrash:" << r1.status << "\ncrash\n";
       out.fail(id, "Circuit::legalize on a legal placement: child " + r1.status, text);
@@ -277,7 +288,7 @@ struct Runner {
     for (int i = 0; i < L.nbCells() && !two; ++i)
       for (int j = i + 1; j < L.nbCells() && !two; ++j)
         if (!L.isFixed(i) && !L.isFixed(j) && L.cellY()[i] == L.cellY()[j]) two = true;
-    if (two) out.nontrivial(vh::hashStr(text));
+    if (two) out.nontrivial(vh::hashStr(caseTxt));
     out.sample("case " + id + " " + stream + ": " + std::to_string(f.nMov) + " cells ow=" + std::to_string(lp.ow) + (moved ? " MOVED" : " stable"));
   }
 };
@@ -287,15 +298,20 @@ int main(int argc, char **argv) {
   vh::Out out(a.out);
   out.rule = "a case = legal single-row placement (checked by the independent legality oracle) + legalization parameters "
              "(a quarter of the cases with |orderingHeight| in 2^10..2^40, where the binary32 keys tie: KF-C11-2); "
-             "non-trivial = at least two movable cells share a row y (their relative order must be kept); distinct by case text";
+             "non-trivial = at least two movable cells share a row y (their relative order must be kept); distinct by case text. "
+             "One case in three is fed to an object with a past (history_* counters: class that differs, what the object did, "
+             "which setters restored it, sole restorer)";
   Runner r(out);
   auto fromFile = [&](const std::string &p, const std::string &id, const std::string &stream) {
     Circuit c(0);
     lg::LParams lp;
     if (!std::ifstream(p).good()) return false;
-    if (!lg::parseCase(lg::loadCaseFile(p), c, lp)) return false;
+    lg::Past past;
+    bool hasPast = false;
+    if (!lg::parseCaseWithPast(lg::loadCaseFile(p), c, lp, past, hasPast)) return false;
     if (!vc::checkLegal(c, true).empty()) { out.notes.push_back(p + ": not a legal placement, skipped"); return false; }
-    r.run(id, c, lp, stream);
+    if (hasPast) r.run(id, c, lp, stream + "+hist", &past);
+    else r.run(id, c, lp, stream);
     return true;
   };
   if (!a.replay.empty()) {
@@ -317,6 +333,13 @@ int main(int argc, char **argv) {
     for (int i = 0; i < 200; ++i) fromFile(a.corpus + "/case" + std::to_string(i) + ".txt", "c" + std::to_string(i), "corpus");
   }
   long long n = a.thorough() ? 20000 : (a.search() ? 15000 : 1500);
+  // one case in three on an object with a past (the generator state is advanced after the case itself is drawn)
+  auto runMaybeHist = [&](vh::Rng &g, const std::string &id, const Circuit &L, const lg::LParams &lp, const std::string &stream) {
+    if (g.chance(1, 3) && L.nbCells() > 0) {
+      lg::Past past = lg::genPast(g, L);
+      r.run(id, L, lp, stream + "+hist", &past);
+    } else r.run(id, L, lp, stream);
+  };
   for (long long i = 0; i < n; ++i) {
     if (a.only >= 0 && i != a.only) continue;
     vh::Rng g = vh::Rng::forCase(a.seed, i);
@@ -328,7 +351,7 @@ int main(int argc, char **argv) {
       long long S = g.pick(scales);
       Circuit L = genLegalDirect(g, S);
       if (!vc::checkLegal(L, true).empty()) { out.count("source_B_not_legal_BUG"); continue; }
-      r.run(std::to_string(i), L, tall, "tall_ordering_height");
+      runMaybeHist(g, std::to_string(i), L, tall, "tall_ordering_height");
     } else if (i % 2 == 0) {
       // A: output of legalization
       vc::GenOpts o;
@@ -340,6 +363,8 @@ int main(int argc, char **argv) {
       o.maxUtil = 1.0;
       if (a.thorough() && g.chance(1, 3)) { o.maxCells = 50; o.maxRows = 10; }
       Circuit c = vc::genCircuit(g, o);
+      // one in five: rows laid out by the library's own setupRows over the same area (setupRows can then be a restoring call)
+      if (c.nbRows() > 0 && g.chance(1, 5)) { c.setupRows(c.computePlacementArea(), c.rows_[0].height(), g.chance(2, 3), g.chance(1, 2)); out.count("rows_from_setupRows"); }
       lg::LParams first = lg::genLParams(g, false);
       bool tallA = i % 8 == 4;  // an eighth of the cases: legalize with a huge orderingHeight, then again
       if (tallA) first = genTallParams(g);
@@ -350,13 +375,13 @@ int main(int argc, char **argv) {
       lg::parseCase(r0.after + lg::paramsLine(first) + "\n", L, dummy);
       if (!vc::checkLegal(L, true).empty()) { out.count("source_A_output_not_legal_skipped"); continue; }
       // usually re-legalize with the same parameters ("legalizing twice"), sometimes with others
-      if (tallA) r.run(std::to_string(i), L, first, "from_legalize_tall_ordering_height");
-      else r.run(std::to_string(i), L, g.chance(1, 2) ? first : lp, "from_legalize");
+      if (tallA) runMaybeHist(g, std::to_string(i), L, first, "from_legalize_tall_ordering_height");
+      else { lg::LParams second = g.chance(1, 2) ? first : lp; runMaybeHist(g, std::to_string(i), L, second, "from_legalize"); }
     } else {
       long long S = g.pick(scales);
       Circuit L = genLegalDirect(g, S);
       if (!vc::checkLegal(L, true).empty()) { out.count("source_B_not_legal_BUG"); continue; }
-      r.run(std::to_string(i), L, lp, S > 1 ? "direct_scaled" : "direct");
+      runMaybeHist(g, std::to_string(i), L, lp, S > 1 ? "direct_scaled" : "direct");
     }
   }
   if (!r.kfWritten.empty())
